@@ -58,6 +58,10 @@ fn h_c_null_args() {
     // close: null slot pointer, and slot containing null (cleared handle)
     assert!(st(mla_archive_file_close(core::ptr::null_mut(), wild())) == BAD);
     assert!(st(mla_archive_file_close(wild(), core::ptr::null_mut())) == BAD);
+    // a call refused on argument validation leaves the caller's (live) file handle alone
+    let mut live: MLAArchiveFileHandle = wild();
+    assert!(st(mla_archive_file_close(core::ptr::null_mut(), &raw mut live)) == BAD);
+    assert!(live == wild::<c_void>(), "a file handle was cleared (its object lost) by a call that was refused on argument validation");
     let mut cleared: MLAArchiveFileHandle = core::ptr::null_mut();
     assert!(st(mla_archive_file_close(wild(), &raw mut cleared)) == BAD, "closing an already cleared file handle is refused");
     assert!(cleared.is_null());
